@@ -432,29 +432,25 @@ impl<
     ) -> Result<u64, ListenerWaitError> {
         let mgmt = self.storage.get();
 
+        // The wait buffer must be emptied BEFORE the state is reset to IDLE. A notifier that
+        // observes IDLE triggers the waiter; if the buffer were emptied after the reset, that
+        // trigger could be consumed here without anybody waiting for it, the notifier would
+        // continue with PENDING -> NOTIFIED and every later notification would skip the trigger
+        // while the listener sleeps.
         let mut drain = || -> Result<u64, ListenerWaitError> {
             fail!(from self, when self.waiter.empty_buffer(),
                 "{msg} since the wait buffer could not be emptied.");
+            mgmt.notification_state
+                .store(NOTIFICATION_STATE_IDLE, Ordering::SeqCst);
             Ok(self.storage.get().event.drain(&mut callback))
         };
 
-        if mgmt
-            .notification_state
-            .compare_exchange(
-                NOTIFICATION_STATE_NOTIFIED,
-                NOTIFICATION_STATE_IDLE,
-                Ordering::SeqCst,
-                Ordering::SeqCst,
-            )
-            .is_ok()
-        {
+        if mgmt.notification_state.load(Ordering::SeqCst) == NOTIFICATION_STATE_NOTIFIED {
             return drain();
         }
 
         fail!(from self, when wait_call(),
             "{msg} since the underlying wait call failed.");
-        mgmt.notification_state
-            .store(NOTIFICATION_STATE_IDLE, Ordering::SeqCst);
         drain()
     }
 }
